@@ -7,14 +7,19 @@ CONTRACT_MODULES = ['c14_files', 'c14_writers']
 LEVEL = 'other'
 TRUSTED = ['pyvc (VC generator, Python semantics of the stated subset)', 'z3 5.1.0 / cvc5',
            'LIBSPEC ghost file system (pyvc/libext/c14_fs.py): Path(s) is its string, is_file/exists are predicates over '
-           'path strings, open(w)/to_csv/os.rename/shutil.copy are write events with the precondition "target is not an existing file"',
+           'path strings, open(w)/to_csv/os.rename/shutil.copy are write events with the precondition "target is not an existing file"; '
+           'file content is a ghost string per path: open(w) empties it, f.write(s) appends s, pickle.dump / to_csv store the uninterpreted '
+           'images c14_pickled(obj) / c14_csv(frame), rename / copy carry the content of the source (what the images mean is bounded)',
            'assumed contracts: get_html / get_latex / get_f12 / flatten_database are pure (their file-system purity is the static obligation fs-pure)']
 ASSUMPTIONS = ['A-STR-ATOM: strings are atoms; f-strings / concatenations are uninterpreted functions of their parts',
                'partial correctness only: get_new_file_name / create_backup do not terminate in a directory holding every candidate name',
                'no other process changes the directory between get_new_file_name and the write (the code has the same race)']
 EXPLANATION = ('Deductive: get_new_file_name (result is not an existing file; name.ext or name~NN.ext; loop invariant), create_backup, '
                'parse_boolean (boolean coding round trip), and the writers write_pickle/write_html/write_latex/write_f12/dump_on_file/'
-               'generate_flat_panel_dataframe against a ghost file system (the write sink carries the never-overwrite precondition). '
+               'generate_flat_panel_dataframe against a ghost file system (the write sink carries the never-overwrite precondition; '
+               'round 3: the new file holds exactly the text of the report generator called with the writer\'s own argument / the image of '
+               'self.data / of the returned flat frame; create_backup takes the smallest free number >= 1 of its naming scheme, moves the '
+               'original iff rename, changes no other file; generate_flat_panel_dataframe raises iff the data is not panel). '
                'Static: every write sink of results.py, database.py, biogeme.py, parameters.py takes its name from get_new_file_name '
                '(two documented allowlisted sinks). Bounded on the real code: pickle round trip, parameter-file round trip, reports list every '
                'parameter, histories of output generation never overwrite.')
